@@ -121,7 +121,7 @@ def parse_harness_output(out):
 
 import threading
 # at most VERIF_KANI_PROCS cargo-kani / CBMC processes at once across all units of one ./check (CPU and memory guard)
-HARNESS_SEM = threading.BoundedSemaphore(int(os.environ.get('VERIF_KANI_PROCS', '10')))
+HARNESS_SEM = threading.BoundedSemaphore(int(os.environ.get('VERIF_KANI_PROCS', '14')))
 
 
 def run_harness(ws, cfg, h, target_dir, tier):
